@@ -48,7 +48,7 @@ var c02Formats = []c02Format{
 // c02Report renders one report of the accepted profile whose serialized form is pb, the way
 // driver.generateReport does with the default configuration (a fresh copy per report,
 // default sample index, report.New, aggregation, report.Generate).
-func c02Report(pb []byte, f c02Format) error {
+func c02Report(pb []byte, f c02Format, opt c02ROpt) error {
 	p, err := profile.ParseUncompressed(pb)
 	if err != nil {
 		return fmt.Errorf("re-parse: %v", err)
@@ -60,22 +60,37 @@ func c02Report(pb []byte, f c02Format) error {
 	if len(p.SampleType) == 0 {
 		return fmt.Errorf("profile has no samples") // what driver.sampleFormat answers
 	}
-	idx, err := p.SampleIndexByName("")
+	// driver.reportOptions / sampleFormat
+	idx, err := p.SampleIndexByName(c02ResolveIndex(p, opt.sampleIndex))
 	if err != nil {
 		return err
 	}
+	divideBy := opt.divideBy
+	if divideBy == 0 {
+		divideBy = 1 // the default; an explicit 0 is refused by the driver ("zero divisor specified")
+	}
+	unit := opt.unit
+	if unit == "" {
+		unit = "minimum"
+	}
+	stype := p.SampleType[idx].Type
 	numLabelUnits, _ := p.NumLabelUnits()
 	o := &report.Options{
 		OutputFormat:  f.format,
-		Ratio:         1,
+		DropNegative:  opt.dropNegative,
+		Ratio:         1 / divideBy,
 		NodeCount:     f.nodeCount,
 		NodeFraction:  0.005,
 		EdgeFraction:  0.001,
 		NumLabelUnits: numLabelUnits,
 		SampleValue:   func(v []int64) int64 { return v[idx] },
-		SampleType:    p.SampleType[idx].Type,
+		SampleType:    stype,
 		SampleUnit:    p.SampleType[idx].Unit,
-		OutputUnit:    "minimum",
+		OutputUnit:    unit,
+	}
+	if opt.mean {
+		o.SampleMeanDivisor = func(v []int64) int64 { return v[0] }
+		o.SampleType = "mean_" + stype
 	}
 	if !f.trim {
 		o.NodeCount, o.NodeFraction, o.EdgeFraction = 0, 0, 0
@@ -150,7 +165,11 @@ func c02RunCLI(c *Ctx, input []byte, cmds []string, limit time.Duration) []c02CL
 			defer func() { <-sem }()
 			ctx, cancel := context.WithTimeout(context.Background(), limit)
 			defer cancel()
-			ex := exec.CommandContext(ctx, c.Pprof, "-symbolize=none", cmd, file)
+			args := []string{"-symbolize=none"}
+			for _, a := range strings.Split(cmd, "\x1f") { // unit separator between flags
+				args = append(args, strings.ReplaceAll(a, "{file}", file))
+			}
+			ex := exec.CommandContext(ctx, c.Pprof, append(args, file)...)
 			ex.Env = append(os.Environ(), "HOME="+dir, "PPROF_TMPDIR="+dir, "PPROF_BINARY_PATH="+filepath.Join(dir, "bin"), "GOTRACEBACK=single")
 			ex.Dir = dir
 			var stderr bytes.Buffer
